@@ -20,6 +20,13 @@ Streams (the class is re-derived by the model driver from the case text):
              name (qcachettl>0), or a send that fails on the spot with the tries exhausted
              (tries=1 servers=1 + `fail sendto|socket|connect`), for the A leg, the AAAA leg or
              both, with scripts on the compound request (cancel / re-submit the same name)
+  reconf     configuration that requests keep using comes from the system configuration
+             (sysconf=lookups,domains + a resolv.conf written by the case: lookup order, search
+             domains, ndots, sortlist; sometimes a hosts file) and is replaced by ares_reinit
+             while requests of every kind are pending (ares_sysconfig_apply frees and replaces
+             the channel's copies even when nothing changed); afterwards negative answers and
+             timeouts make each request go back to its configuration-derived state (next
+             lookup, next search domain, sort list, hosts path)
   crashers   close variations of the four defects of the pinned tree
 """
 
@@ -263,6 +270,100 @@ def config(rng, stream):
     return " ".join(c)
 
 
+def hexof(text):
+    return "".join("%02x" % b for b in text.encode())
+
+
+def rc_text(rng):
+    """a resolv.conf: lookup order (overridden by /etc/nsswitch.conf where that exists), search list, ndots, sortlist"""
+    lines = ["lookup " + rng.choice(["bind", "bind file", "file bind", "bind files", "dns local", "file"]),
+             "search " + rng.choice(["a.test b.test", "d.test", "corp.test x.test y.test", "s.test ."])]
+    if rng.random() < 0.5:
+        lines.append("options ndots:%d" % rng.choice([1, 2, 3]))
+    if rng.random() < 0.6:
+        lines.append("sortlist " + rng.choice(["10.0.0.0/255.0.0.0", "1.2.3.0/24 9.9.9.0/24", "130.155.160.0/255.255.240.0 130.155.0.0"]))
+    rng.shuffle(lines)
+    return "\n".join(lines) + "\n"
+
+
+def reconf_config(rng):
+    c = ["lctrace=1", "serverstatecb=1", "seed=%d" % rng.randint(1, 10 ** 6), "servers=%d" % rng.choice([1, 1, 2])]
+    flags = [f for f, p in (("stayopen", 0.2), ("noedns", 0.5), ("nocheckresp", 0.1)) if rng.random() < p]
+    c.append("flags=" + ",".join(sorted(flags) or ["none"]))
+    c.append("tries=%d" % rng.choice([1, 1, 2]))
+    c.append("timeout=%d" % rng.choice([100, 500]))
+    c.append("sysconf=%s" % rng.choice(["lookups", "lookups", "lookups,domains", "lookups,domains", "domains"]))
+    if rng.random() < 0.3:
+        c.append("ndots=%d" % rng.choice([1, 2]))
+    if rng.random() < 0.5:
+        c.append("qcachettl=0")
+    c.append("resolvconf=@/rc")
+    c.append("writefile=@/rc:" + hexof(rc_text(rng)))
+    if rng.random() < 0.12:
+        # a hosts file (the model assumes an empty one: these cases are judged by monitor and sanitizers only)
+        c.append("hosts=@/h")
+        c.append("writefile=@/h:" + hexof("10.11.12.1 filehost.example fh\n127.0.0.1 localhost\n"))
+    return " ".join(c)
+
+
+def reconf_history(rng, maxops):
+    g = G(rng, maxops)
+    ops = g.ops
+    NEG = ["rcode=NXDOMAIN", "rcode=NXDOMAIN", "rcode=SERVFAIL", "rcode=NOERROR", "rcode=REFUSED", "rcode=NOTIMP"]
+
+    def submit(k, p_script):
+        for _ in range(k):
+            t = g.fresh()
+            if rng.random() < p_script:
+                if rng.random() < 0.7:
+                    # configuration-independent script (the model driver replays these)
+                    t2 = g.fresh()
+                    ops.append("oncb %d %s" % (t, rng.choice(["cancel", g.request(t2, rng.choice(["send", "query", "oquery"])).replace(" ", ",")])))
+                else:
+                    ops.extend(g.with_script(t, 1, {"req", "cancel"}))
+            kind = rng.choice(["ghba", "ghba", "gni", "gni", "gai", "gai", "ghbn", "search", "osearch", "query", "send"])
+            name = rng.choice(["h%d" % t, "h%d" % t, "h%d.example" % t, "h%d.sub" % t, "localhost"]) if kind in ("gai", "ghbn", "search", "osearch") else None
+            ops.append(g.request(t, kind, name))
+
+    def negatives(k):
+        for _ in range(k):
+            r = rng.random()
+            if r < 0.7:
+                ops.append("rspall " + rng.choice(NEG))
+                ops.append(rng.choice(["run", "run", "proc"]))
+            elif r < 0.9:
+                ops.append("adv %d" % rng.choice([500, 1000, 2500]))
+                ops.append(rng.choice(["proct", "run"]))
+            else:
+                ops.append("rspall " + rng.choice(["an=A:1.2.3.4:60+A:9.9.9.9:60+A:10.1.1.1:60", "an=PTR:host1.example:60", "an=AAAA:[2001:db8::1]:60"]))
+                ops.append("run")
+
+    ops.append("effcfg")
+    submit(rng.choice([1, 2, 3, 5]), 0.3)
+    if rng.random() < 0.4:
+        negatives(1)
+    for _ in range(rng.choice([1, 1, 2, 3])):
+        if rng.random() < 0.6:
+            ops.append("writefile @/rc " + hexof(rc_text(rng)))
+        ops.append("reinit")
+        if rng.random() < 0.3:
+            ops.append("reinit")
+        ops.append("effcfg")
+        if rng.random() < 0.5:
+            submit(rng.choice([1, 2]), 0.2)
+        negatives(rng.choice([1, 2, 3, 4]))
+        if len(ops) > maxops:
+            break
+    r = rng.random()
+    if r < 0.2:
+        ops.append("cancel")
+    elif r < 0.3:
+        ops.append("destroy")
+    else:
+        negatives(rng.choice([2, 4, 6]))
+    return ops
+
+
 def history(rng, stream, maxops):
     g = G(rng, maxops)
     ops = g.ops
@@ -432,13 +533,16 @@ def crasher(rng):
 
 def gen(rng, tier, n):
     maxops = 40 if tier in ("quick", "search") else 150
-    streams = ["plain"] * 3 + ["reentrant"] * 4 + ["destroy"] * 2 + ["sockfail"] * 3 + ["tcp"] * 2 + ["longname"] + ["reentrant-ss"] + ["syncsub"] * 3
+    streams = ["plain"] * 3 + ["reentrant"] * 4 + ["destroy"] * 2 + ["sockfail"] * 3 + ["tcp"] * 2 + ["longname"] + ["reentrant-ss"] + ["syncsub"] * 3 + ["reconf"] * 2
     out = []
     for i in range(n):
         if i % 25 == 24:
             out.append(crasher(rng))
             continue
         stream = streams[i % len(streams)]
+        if stream == "reconf":
+            out.append(reconf_config(rng) + "|" + ";".join(reconf_history(rng, maxops)))
+            continue
         cfg = config(rng, stream)
         ops = history(rng, stream, maxops)
         out.append(cfg + "|" + ";".join(ops))
